@@ -20,7 +20,7 @@ Lemma shape_ops cs : shape_ok cs = true ->
   forall m tx, ops_for cs m tx = expected_arm (disposition_of m tx) tx.
 Proof.
   unfold shape_ok. intro H.
-  apply andb_true_iff in H as [H _]. apply andb_true_iff in H as [H _].
+  apply andb_true_iff in H as [H _]. apply andb_true_iff in H as [H _]. apply andb_true_iff in H as [H _].
   rewrite forallb_forall in H.
   intros m tx.
   assert (In m all_modes) as Hin by (destruct m; cbn; tauto).
@@ -30,7 +30,7 @@ Qed.
 
 Lemma shape_restores cs : shape_ok cs = true -> cs_restores cs = true.
 Proof.
-  unfold shape_ok. intro H. apply andb_true_iff in H as [H _]. apply andb_true_iff in H as [_ H]. exact H.
+  unfold shape_ok. intro H. apply andb_true_iff in H as [H _]. apply andb_true_iff in H as [H _]. apply andb_true_iff in H as [_ H]. exact H.
 Qed.
 
 Lemma shape_roles cs : shape_ok cs = true ->
@@ -38,7 +38,7 @@ Lemma shape_roles cs : shape_ok cs = true ->
   lookup_role (cs_second cs) Participant = Some SANothing /\
   lookup_role (cs_second cs) UnKnow = Some SAError.
 Proof.
-  unfold shape_ok. intro H. apply andb_true_iff in H as [_ H].
+  unfold shape_ok. intro H. apply andb_true_iff in H as [H _]. apply andb_true_iff in H as [_ H].
   destruct (lookup_role (cs_second cs) Launcher) as [[]|]; try discriminate;
   destruct (lookup_role (cs_second cs) Participant) as [[]|]; try discriminate;
   destruct (lookup_role (cs_second cs) UnKnow) as [[]|]; try discriminate; auto.
